@@ -91,8 +91,8 @@ class TBRiROAS():
     """Determines whether we are dealing with a fixed cost scenario.
 
     Returns:
-      `bool`. True iff the sum of costs outside the treatment group in the test
-        period is approx equal to zero.
+      `bool`. True iff the costs outside the treatment group in the test
+        period are approx equal to zero.
     """
 
     # Access the relevant analysis data.
@@ -109,8 +109,9 @@ class TBRiROAS():
     # Get the cost data for the test-period for the control group.
     subset = adata.loc[adata[self.df_names.period] == test]
     test_costs_cntrl = subset.loc[cntrl][key_cost]
-    # Sum of costs.
-    tot_costs = sum(pre_costs) + sum(test_costs_cntrl)
+    # Sum of the cost magnitudes: costs of opposite sign (refunds, corrections)
+    # must not cancel each other out.
+    tot_costs = sum(abs(pre_costs)) + sum(abs(test_costs_cntrl))
 
     # Declare the costs to be zero if their sum is very small.
     tot_costs_order = utils.float_order(tot_costs)
